@@ -346,7 +346,10 @@ EvFsubClosed == /\ stages' = [stages EXCEPT ![A].closed = TRUE]
 \* recv at a harness consumer of stage A: ev, rdy, cv (version read from the cache right after), cp (present)
 EvRecv ==
   LET e == R.ev
-      cacheOlder == /\ e.et # "delete" /\ IsNum(e.o.v)
+      \* C05 speaks of Subscribe/Clone trees: the cache read is the controller's.  (A filtered node's private cache may
+      \* transiently hold an older version after a Refilter with parent events in flight - see DESIGN.md, observation O1.)
+      cacheOlder == /\ \E c \in DOMAIN ctls : ctls[c].cache = CacheOf(A)
+                    /\ e.et # "delete" /\ IsNum(e.o.v)
                     /\ ~("drain" \in DOMAIN R)
                     /\ R.cp /\ IsNum(R.cv) /\ R.cv < e.o.v IN
   /\ Report(First(<<DeqClass(A, e), IF ~R.rdy THEN "event-before-ready" ELSE "", IF cacheOlder THEN "cache-older-than-event" ELSE "">>),
@@ -451,6 +454,7 @@ EvSrvSnapshot ==
   /\ Skip
 
 (* ---- termination observations ---- *)
+EvBlocked == Report("api-call-blocks", [call |-> R.call, node |-> R.node]) /\ Skip
 EvLeak == Report(IF R.n # 0 THEN "goroutine-leak" ELSE "", [n |-> R.n, sample |-> R.sample]) /\ Skip
 EvTimeout == Report("shutdown-timeout", [node |-> A, what |-> R.what]) /\ Skip
 EvRetClose == Report(IF R.timeout THEN "close-hangs" ELSE "", [node |-> R.node]) /\ Skip
@@ -505,6 +509,7 @@ Dispatch ==
     [] e = "srv.snapshot"     -> EvSrvSnapshot
     [] e = "cb"               -> EvCb
     [] e = "leak"             -> EvLeak
+    [] e = "blocked"          -> EvBlocked
     [] e = "timeout"          -> EvTimeout
     [] e = "ret.close"        -> EvRetClose
     [] e = "after"            -> EvAfter
